@@ -163,6 +163,23 @@ def run(job):
         if r[0] != 'ok' or r[1] != [noisy, data]:
             t.violation('C17.scan', 'info-only stream scan does not cut messages at their declared total length (%r)' % (
                 r[1] if r[0] != 'ok' else [len(x) for x in r[1]],), {'stream': stream.hex()}, key='C17.scan')
+    # a table-definition message (category 11, n_subsets > 0) with a damaged data section in an info-only scan
+    from bounded.C20 import def_message, gen_defs
+    for _ in range(3 if quick else 20):
+        d = def_message(*gen_defs(rng))
+        rm = R.RefDecoder(d, fallback=False).decode(data_section=False)
+        s4, ln4 = rm.extents[4]
+        noisy = bytearray(d)
+        for i in range(s4 + 4, s4 + ln4):
+            noisy[i] = 0xff
+        noisy = bytes(noisy)
+        other = msgs[0][1]
+        stream = noisy + b'\r\r\n' + other
+        r = safe(lambda: [mm.serialized_bytes for mm in generate_bufr_message(Decoder(), stream, info_only=True)])
+        t.case('C.scan.definition', len(d))
+        if r[0] != 'ok' or r[1] != [noisy, other]:
+            t.violation('C17.scan', 'info-only scan of a stream whose table-definition message has a damaged data section: %r' % (
+                r[1] if r[0] != 'ok' else [len(x) for x in r[1]],), {'stream': stream.hex()}, key='C17.scan.definition')
     if not quick:
         for f in corpus_files():
             data = read_first_message(f)
